@@ -1,6 +1,6 @@
 //! Seeded workload generators: one integer -> one case (scenario, parameters, policy, fault plan).
 
-use crate::case::{Case, DItem, Mode, GK};
+use crate::case::{Case, DItem, Mode, Sweep, GK};
 use crate::corpus::{Root, ROOTS, SIBLINGS};
 use crate::model::Pos;
 use crate::verif_shim::sched::{splitmix, Policy};
@@ -299,7 +299,7 @@ pub fn gen_direct_history(prop: &str, seed: u64, faults: bool) -> Case {
             } else {
                 None
             };
-            case.items.push(DItem { root: root.clone(), moves: line[..at].to_vec(), depth: Some(depth), stop_at, fresh: false });
+            case.items.push(DItem { root: root.clone(), moves: line[..at].to_vec(), depth: Some(depth), stop_at, fresh: false, isolated: false, sweep: None });
             match rng.below(10) {
                 0..=4 => at = (at + rng.range(1, 2) as usize).min(line.len()),
                 5 => at = at.saturating_sub(rng.range(1, 2) as usize),
@@ -342,9 +342,523 @@ pub fn walk_from(rng: &mut Rng, root: &str, pre: &[String], n: u64) -> Vec<Strin
     out
 }
 
+fn ditem(root: &str, moves: &[String], depth: Option<u8>, stop_at: Option<u64>) -> DItem {
+    DItem { root: root.to_string(), moves: moves.to_vec(), depth, stop_at, fresh: false, isolated: false, sweep: None }
+}
+
+fn direct_params(case: &mut Case, max_polls: u64) {
+    case.params.policy = Policy::Np;
+    case.params.node_cost = 1_000;
+    case.params.max_polls = max_polls;
+    case.params.max_steps = max_polls * 3 + 100_000;
+}
+
+// ------------------------------------------------------------------------------------------ C07
+/// Enumeration of the stop instant. Families: direct sweep (every poll index of a short search, after a seeded
+/// table history); GUI `stop` placed at an exact poll; timer deadline placed at an exact poll; go+stop burst;
+/// self-play with a budget shorter than depth 1.
+pub fn gen_c07(seed: u64, thorough: bool) -> Case {
+    let mut rng = Rng::new(seed, 0x07);
+    let fam = seed % 8;
+    let r = rng.pick(ROOTS);
+    let root = r.fen.to_string();
+    let pre_n = if rng.chance(1, 2) { 0 } else { rng.below(8) };
+    let pre = walk(&mut rng, &root, pre_n);
+    let class = if pre.len() > 4 { r.class.max(1) } else { r.class };
+    let depth = rng.range(1, max_depth_for(class).min(if class == 0 { 5 } else { 3 })) as u8;
+    if fam <= 4 {
+        let mut case = Case::new("C07", "direct-stop-sweep", seed, Mode::Direct);
+        direct_params(&mut case, if thorough { 8_000_000 } else { 300_000 });
+        // table history: nothing / deeper / shallower / aborted search of the same or the parent position
+        match rng.below(6) {
+            0 | 1 => {}
+            2 => case.items.push(ditem(&root, &pre, Some(depth + 1), None)),
+            3 => case.items.push(ditem(&root, &pre, Some(depth.saturating_sub(1).max(1)), None)),
+            4 => case.items.push(ditem(&root, &pre, Some(depth + 1), Some(rng.log_uniform(1, 400)))),
+            _ => {
+                if !pre.is_empty() {
+                    case.items.push(ditem(&root, &pre[..pre.len() - 1], Some(depth + 1), None));
+                } else {
+                    case.items.push(ditem(&root, &pre, Some(depth), Some(rng.below(50))));
+                }
+            }
+        }
+        let mut it = ditem(&root, &pre, Some(depth), None);
+        it.sweep = Some(if thorough { Sweep { all_upto: 3_000, head: 200, samples: 500, seed } } else { Sweep { all_upto: 40, head: 3, samples: 20, seed } });
+        case.items.push(it);
+        case
+    } else if fam == 5 {
+        // GUI stop placed at an exact poll: the GUI and the stdin loop outrank the search
+        let mut case = Case::new("C07", "session-stop-at-poll", seed, Mode::Session);
+        case.params.policy = Policy::RolePrio([3, 4, 1, 0, 2]); // main, gui, unknown, search, timer
+        case.params.fair = 400;
+        case.params.node_cost = 10_000;
+        case.params.tt_cap = 64;
+        case.push(GK::NewGame { root: root_cmd_str(&root), pre });
+        if rng.chance(1, 2) {
+            case.push(GK::PosCur);
+            case.raw(format!("go depth {}", depth));
+            case.push(GK::AwaitBest);
+        }
+        case.push(GK::PosCur);
+        if rng.chance(1, 2) {
+            case.raw("go infinite");
+        } else {
+            case.raw(format!("go depth {}", depth + 2));
+        }
+        let k = if rng.chance(1, 3) { rng.below(4) } else { rng.log_uniform(1, 2_000) };
+        case.push(GK::AfterPolls(k));
+        case.raw("stop");
+        case.push(GK::AwaitBest);
+        case.raw("isready");
+        case.push(GK::AwaitReady);
+        case.push(GK::Advance { best: true, replies: vec![rng.next() as u32] });
+        case.push(GK::PosCur);
+        case.raw("go depth 1");
+        case.push(GK::AwaitBest);
+        case.raw("quit");
+        case
+    } else if fam == 6 {
+        // timer deadline placed at an exact poll: node cost 1 ms, `movetime k+5` expires at poll k; the timer outranks the search
+        let mut case = Case::new("C07", "session-timer-at-poll", seed, Mode::Session);
+        case.params.policy = Policy::RolePrio([3, 4, 1, 0, 2]);
+        case.params.fair = 400;
+        case.params.node_cost = 1_000_000;
+        case.params.tt_cap = 64;
+        case.push(GK::NewGame { root: root_cmd_str(&root), pre });
+        case.push(GK::PosCur);
+        let k = if rng.chance(1, 2) { rng.below(6) } else { rng.log_uniform(1, 1_500) };
+        let mt = if rng.chance(1, 4) { rng.below(6) } else { k + 5 };
+        case.raw(format!("go movetime {}", mt));
+        case.push(GK::AwaitBest);
+        case.raw("isready");
+        case.push(GK::AwaitReady);
+        case.raw("quit");
+        case
+    } else {
+        if rng.chance(1, 2) {
+            // go immediately followed by stop, under any policy
+            let mut case = Case::new("C07", "session-go-stop-burst", seed, Mode::Session);
+            swarm_params(&mut rng, &mut case);
+            case.push(GK::NewGame { root: root_cmd_str(&root), pre });
+            case.push(GK::PosCur);
+            case.raw(if rng.chance(1, 2) { "go infinite".to_string() } else { format!("go depth {}", depth + 1) });
+            case.raw("stop");
+            case.push(GK::AwaitBest);
+            case.raw("quit");
+            case
+        } else {
+            // self-play with a thinking time shorter than one iteration
+            let mut case = Case::new("C07", "selfplay-short-budget", seed, Mode::Autoplay);
+            case.params.policy = Policy::Rw(50);
+            case.params.fair = *rng.pick(&[2u32, 8, 64]);
+            case.params.node_cost = 1_000_000;
+            case.params.max_polls = 3_000;
+            case.params.max_steps = 60_000;
+            case.autoplay_ms = rng.range(0, 12);
+            case
+        }
+    }
+}
+
+fn root_cmd_str(fen: &str) -> String {
+    if fen == "startpos" {
+        "startpos".into()
+    } else {
+        format!("fen {}", fen)
+    }
+}
+
+// ------------------------------------------------------------------------------------------ C08
+pub fn gen_c08(seed: u64, thorough: bool) -> Case {
+    let mut rng = Rng::new(seed, 0x08);
+    let fam = seed % 8;
+    let tiny: Vec<&Root> = ROOTS.iter().filter(|r| r.class == 0).collect();
+    if fam <= 2 {
+        // (a) direct: plant an exact root entry of depth D, then ask for depth N (<, =, > D); never a stop
+        let mut case = Case::new("C08", "direct-depth-after-deeper-entry", seed, Mode::Direct);
+        direct_params(&mut case, 400_000);
+        let r = rng.pick(ROOTS);
+        let root = r.fen.to_string();
+        let pre_n = if rng.chance(1, 2) { 0 } else { rng.below(8) };
+        let pre = walk(&mut rng, &root, pre_n);
+        let class = if pre.len() > 4 { r.class.max(1) } else { r.class };
+        let dmax = max_depth_for(class);
+        let d = rng.range(1, dmax) as u8;
+        let n = rng.range(1, dmax) as u8;
+        if rng.chance(1, 5) {
+            // the deeper entry comes from a search that was stopped after completing some iterations
+            case.items.push(ditem(&root, &pre, None, Some(rng.log_uniform(50, 20_000))));
+        } else {
+            case.items.push(ditem(&root, &pre, Some(d), None));
+        }
+        match rng.below(4) {
+            0 => {}
+            1 => {
+                // unrelated search in between
+                let o = rng.pick(ROOTS);
+                case.items.push(ditem(o.fen, &[], Some(rng.range(1, max_depth_for(o.class)) as u8), None));
+            }
+            _ => {}
+        }
+        if rng.chance(1, 4) && pre.len() >= 1 {
+            // two plies later down the line the first search examined
+            let more = walk_from(&mut rng, &root, &pre, 2);
+            let mut line = pre.clone();
+            line.extend(more);
+            case.items.push(ditem(&root, &line, Some(n), None));
+        } else {
+            case.items.push(ditem(&root, &pre, Some(n), None));
+        }
+        if rng.chance(1, 3) {
+            case.items.push(ditem(&root, &pre, Some(rng.range(1, dmax) as u8), None));
+        }
+        case
+    } else if fam == 3 {
+        // (a') the same through the real uci.rs: go depth D, then go depth N on the same position, waits only
+        let mut case = Case::new("C08", "session-depth-after-deeper-entry", seed, Mode::Session);
+        swarm_params(&mut rng, &mut case);
+        let r = rng.pick(ROOTS);
+        let dmax = max_depth_for(r.class);
+        case.push(GK::NewGame { root: root_cmd(r), pre: vec![] });
+        for _ in 0..rng.range(2, 4) {
+            case.push(GK::PosCur);
+            case.raw(format!("go depth {}", rng.range(1, dmax)));
+            if rng.chance(1, 2) {
+                case.raw("wait");
+            }
+            case.push(GK::AwaitBest);
+            if rng.chance(1, 4) {
+                case.push(GK::Advance { best: true, replies: vec![rng.next() as u32] });
+            }
+        }
+        case.raw("quit");
+        case
+    } else if fam == 4 {
+        // large depth limits on tiny roots
+        let mut case = Case::new("C08", "direct-large-depth-limit", seed, Mode::Direct);
+        let cap = if thorough { 4_000_000 } else { 300_000 };
+        direct_params(&mut case, cap);
+        let r = rng.pick(&tiny);
+        let n = *rng.pick(&[8u8, 16, 31, 32, 33, 34, 35, 40, 63, 64, 65, 100, 127, 128, 200, 254, 255]);
+        case.items.push(ditem(r.fen, &[], Some(n), None));
+        case
+    } else if fam <= 6 {
+        // (b) unlimited search on a tiny root left running for a seeded number of polls, then stopped
+        let mut case = Case::new("C08", "direct-unlimited-run-length", seed, Mode::Direct);
+        let cap: u64 = if thorough { 20_000_000 } else { 200_000 };
+        direct_params(&mut case, cap + 10_000);
+        let r = rng.pick(&tiny);
+        let pre_n = rng.below(6);
+        let pre = walk(&mut rng, r.fen, pre_n);
+        let run = rng.log_uniform(2_000, cap);
+        case.items.push(ditem(r.fen, &pre, None, Some(run)));
+        // afterwards the table must still serve an ordinary search
+        case.items.push(ditem(r.fen, &pre, Some(2), None));
+        case
+    } else {
+        // (b') the same through uci.rs: go infinite ... stop, then isready and another go
+        let mut case = Case::new("C08", "session-unlimited-run-length", seed, Mode::Session);
+        swarm_params(&mut rng, &mut case);
+        case.params.node_cost = 1_000;
+        case.params.oversleep_max = 0;
+        let cap: u64 = if thorough { 4_000_000 } else { 200_000 };
+        case.params.max_polls = cap + 20_000;
+        case.params.max_steps = cap * 3;
+        let r = rng.pick(&tiny);
+        case.push(GK::NewGame { root: root_cmd(r), pre: vec![] });
+        case.push(GK::PosCur);
+        case.raw("go infinite");
+        case.push(GK::AfterPolls(rng.log_uniform(2_000, cap)));
+        case.raw("stop");
+        case.push(GK::AwaitBest);
+        case.raw("isready");
+        case.push(GK::AwaitReady);
+        case.push(GK::PosCur);
+        case.raw("go depth 2");
+        case.push(GK::AwaitBest);
+        case.raw("quit");
+        case
+    }
+}
+
+// ------------------------------------------------------------------------------------------ C13
+const BOUNDARY_MS: &[u64] = &[0, 1, 4, 5, 6, 10, 149, 150, 151, 155, 156, 7_499, 7_500, 7_501, 7_750, 10_000];
+
+pub fn gen_c13(seed: u64, _thorough: bool) -> Case {
+    let mut rng = Rng::new(seed, 0x13);
+    let fam = seed % 8;
+    let mut case = Case::new("C13", "", seed, Mode::Session);
+    // roots whose search does not end by itself within the budget, and (1 in 5) roots that do
+    let r = if rng.chance(1, 5) {
+        *rng.pick(&["single-reply", "single-reply-b", "mate-in-1", "mate-in-1-b", "mated", "stalemated"])
+    } else {
+        *rng.pick(&["startpos", "kiwipete", "perft4", "perft4-mirror", "perft5", "perft6", "italian", "sicilian-b", "rook-endgame", "castle-only-b", "KPK-b", "KBNK"])
+    };
+    let root = ROOTS.iter().find(|x| x.name == r).unwrap();
+    let pre_n = if rng.chance(1, 2) { 0 } else { rng.below(5) };
+    let pre = walk(&mut rng, root.fen, pre_n);
+    case.push(GK::NewGame { root: root_cmd(root), pre });
+    let val = |rng: &mut Rng, hi: u64| -> u64 {
+        match rng.below(4) {
+            0 => *rng.pick(BOUNDARY_MS),
+            1 => 0,
+            _ => rng.log_uniform(1, hi),
+        }
+    };
+    if fam == 7 {
+        // low clocks shorten, never extend: two clocks W1 <= W2 with the same increment, same position
+        case.family = "monotone-pairs".into();
+        case.tags.push("mono".into());
+        case.params.policy = Policy::Np;
+        case.params.node_cost = 1_000_000;
+        let inc = if rng.chance(1, 2) { 0 } else { val(&mut rng, 20_000) };
+        let w1 = val(&mut rng, 100_000);
+        let w2 = w1 + val(&mut rng, 100_000);
+        let opp = val(&mut rng, 3_600_000);
+        let oinc = val(&mut rng, 10_000);
+        for w in [w1, w2] {
+            case.push(GK::PosCur);
+            case.push(GK::GoClock { own: w, own_inc: inc, opp, opp_inc: oinc });
+            case.raw("stop");
+            case.push(GK::AwaitBest);
+        }
+        case.raw("quit");
+        return case;
+    }
+    let tight = fam <= 3;
+    if tight {
+        // the simulator's own slack stays below the engine's 5 ms allowance
+        case.family = "tight".into();
+        case.tags.push("tight".into());
+        case.params.policy = match rng.below(3) {
+            0 => Policy::Np,
+            1 => Policy::Rw(50),
+            _ => Policy::Rw(300),
+        };
+        case.params.fair = 2;
+        case.params.node_cost = *rng.pick(&[20_000u64, 50_000, 100_000]);
+        case.params.oversleep_max = *rng.pick(&[0u64, 1_000_000, 3_000_000]);
+        case.params.tt_cap = 1024;
+        case.params.max_polls = 400_000;
+        case.params.max_steps = 1_500_000;
+    } else {
+        case.family = "wide".into();
+        swarm_params(&mut rng, &mut case);
+    }
+    case.push(GK::PosCur);
+    // the budget the engine should arrive at decides the node cost in the wide regime
+    let budget_ms: u64;
+    if rng.chance(2, 5) {
+        let m = if tight { val(&mut rng, 6_000) } else { val(&mut rng, 3_600_000) };
+        budget_ms = m.saturating_sub(5);
+        case.raw(format!("go movetime {}", m));
+    } else {
+        let hi = if tight { 120_000 } else { 3_600_000 };
+        let own = val(&mut rng, hi);
+        let inc = if rng.chance(1, 2) { 0 } else { val(&mut rng, if tight { 3_000 } else { 60_000 }) };
+        let opp = val(&mut rng, 3_600_000);
+        let oinc = if rng.chance(1, 2) { 0 } else { val(&mut rng, 60_000) };
+        budget_ms = (own / 50 + inc).saturating_sub(155).min(own);
+        case.push(GK::GoClock { own, own_inc: inc, opp, opp_inc: oinc });
+    }
+    if !tight {
+        let target_polls = rng.log_uniform(10, 3_000);
+        case.params.node_cost = (budget_ms.saturating_mul(1_000_000) / target_polls).clamp(1_000, 2_000_000_000);
+        case.params.max_polls = 60_000;
+    }
+    if rng.chance(1, 4) {
+        case.raw("isready");
+    }
+    case.push(GK::AwaitBest);
+    case.raw("quit");
+    case
+}
+
+// ------------------------------------------------------------------------------------------ C19
+/// tags carry the item: c19root=<root cmd> c19pre=<moves> c19depth=<n>
+pub fn gen_c19(seed: u64, _thorough: bool) -> Case {
+    // 8 consecutive seeds share one item (same root/pre/depth) and differ in the perturbation
+    let item = seed / 8;
+    let pert = seed % 8;
+    let mut irng = Rng::new(item, 0x19);
+    let r = irng.pick(ROOTS);
+    let root = root_cmd(r);
+    let pre_n = if irng.chance(1, 2) { 0 } else { irng.below(10) };
+    let pre = walk(&mut irng, &root, pre_n);
+    let class = if pre.len() > 4 { r.class.max(1) } else { r.class };
+    let depth = irng.range(1, max_depth_for(class).min(4));
+    let mut rng = Rng::new(seed, 0x1919);
+    let mut case = Case::new("C19", "", seed, Mode::Session);
+    case.tags.push(format!("c19root={}", root));
+    case.tags.push(format!("c19pre={}", pre.join(" ")));
+    case.tags.push(format!("c19depth={}", depth));
+    case.tags.push(format!("c19item={}", item));
+    match pert {
+        0 => {
+            case.family = "baseline-again".into();
+            case.params.policy = Policy::Np;
+        }
+        1 | 2 => {
+            case.family = "other-schedule-and-clock".into();
+            swarm_params(&mut rng, &mut case);
+        }
+        3 => {
+            case.family = "pings-during-search".into();
+            swarm_params(&mut rng, &mut case);
+        }
+        _ => {
+            case.family = "prior-history-then-ucinewgame".into();
+            swarm_params(&mut rng, &mut case);
+        }
+    }
+    if pert >= 4 {
+        // arbitrary prior history: other games, aborted and timed searches, possibly the same position
+        let games = rng.range(1, 2);
+        for _ in 0..games {
+            let (hroot, hclass) = if rng.chance(1, 3) { (root.clone(), class) } else { let o = rng.pick(ROOTS); (root_cmd(o), o.class) };
+            let n = rng.below(6);
+            let hpre = if hroot == root && rng.chance(1, 2) { pre.clone() } else { walk(&mut rng, &hroot, n) };
+            case.push(GK::NewGame { root: hroot, pre: hpre });
+            for _ in 0..rng.range(1, 3) {
+                case.push(GK::PosCur);
+                emit_go(&mut rng, &mut case, hclass, true);
+                case.push(GK::Advance { best: true, replies: vec![rng.next() as u32] });
+            }
+        }
+        case.raw("ucinewgame");
+    }
+    case.push(GK::NewGame { root: root.clone(), pre: pre.clone() });
+    case.push(GK::PosCur);
+    case.raw(format!("go depth {}", depth));
+    case.tags.push(format!("c19go={}", case.steps.len()));
+    if pert == 3 {
+        for _ in 0..rng.range(1, 3) {
+            case.push(GK::AfterPolls(rng.log_uniform(1, 300)));
+            case.raw(if rng.chance(1, 4) { "show" } else { "isready" });
+        }
+    }
+    if rng.chance(1, 2) {
+        case.raw("wait");
+    }
+    case.push(GK::AwaitBest);
+    case.raw("quit");
+    case
+}
+
+/// the fresh-engine, non-preemptive reference run of a C19 case's item
+pub fn c19_baseline(case: &Case) -> Option<Case> {
+    let get = |k: &str| case.tags.iter().find_map(|t| t.strip_prefix(k).map(|s| s.to_string()));
+    let root = get("c19root=")?;
+    let pre: Vec<String> = get("c19pre=")?.split_ascii_whitespace().map(|s| s.to_string()).collect();
+    let depth = get("c19depth=")?;
+    let mut b = Case::new("C19", "baseline", 0, Mode::Session);
+    b.params.policy = Policy::Np;
+    b.params.fair = 64;
+    b.params.node_cost = 100_000;
+    b.params.tt_cap = 1024;
+    b.plan = crate::verif_shim::sched::Plan::Gen { seed: 0 };
+    b.push(GK::NewGame { root, pre });
+    b.push(GK::PosCur);
+    b.raw(format!("go depth {}", depth));
+    b.tags.push(format!("c19go={}", b.steps.len()));
+    b.raw("wait");
+    b.push(GK::AwaitBest);
+    b.raw("quit");
+    Some(b)
+}
+
+// ------------------------------------------------------------------------------------------ C15
+fn long_walk(rng: &mut Rng, root: &str, n: u64) -> Vec<String> {
+    // a long legal game on tiny material; avoids captures where it can so that the game does not die out
+    let mut out = vec![];
+    let Some(mut p) = crate::gui::root_pos(root) else { return out };
+    for _ in 0..n {
+        let l = p.legal_moves();
+        if l.is_empty() {
+            break;
+        }
+        let mut pick = None;
+        for _ in 0..4 {
+            let m = rng.pick(&l).clone();
+            let mut q = p.clone();
+            q.play(&m);
+            if q.piece_count() == p.piece_count() && !q.legal_moves().is_empty() {
+                pick = Some(m);
+                break;
+            }
+        }
+        let m = pick.unwrap_or_else(|| rng.pick(&l).clone());
+        p.play(&m);
+        out.push(m);
+    }
+    out
+}
+
+pub fn gen_c15(seed: u64, thorough: bool) -> Case {
+    let mut rng = Rng::new(seed, 0x15);
+    let fam = seed % 8;
+    let tiny = ["KvK", "KvK-b", "KPK", "KRK", "KQK", "KBNK", "knights-tour", "pawn-wall", "minor-endgame"];
+    if fam <= 3 {
+        // long games through `position ... moves ...`, then a search left running
+        let mut case = Case::new("C15", "session-long-game-then-search", seed, Mode::Session);
+        swarm_params(&mut rng, &mut case);
+        case.params.node_cost = 1_000;
+        case.params.oversleep_max = 0;
+        let cap: u64 = if thorough { 3_000_000 } else { 150_000 };
+        case.params.max_polls = cap + 50_000;
+        case.params.max_steps = cap * 3 + 200_000;
+        let nm = *rng.pick(&tiny);
+        let r = ROOTS.iter().find(|x| x.name == nm).unwrap();
+        let len = match rng.below(4) {
+            0 => rng.range(380, 398),
+            1 => rng.range(396, 402),
+            2 => rng.range(400, 520),
+            _ => rng.range(200, 398),
+        };
+        let moves = long_walk(&mut rng, r.fen, len);
+        case.push(GK::NewGame { root: root_cmd(r), pre: moves });
+        case.push(GK::PosCur);
+        if rng.chance(1, 2) {
+            case.raw("go infinite");
+            case.push(GK::AfterPolls(rng.log_uniform(1_000, cap)));
+            case.raw("stop");
+        } else {
+            case.raw(format!("go depth {}", *rng.pick(&[2u64, 6, 12, 30, 64, 100, 120, 200, 255])));
+            case.push(GK::AfterPolls(rng.log_uniform(1_000, cap)));
+            case.raw("stop");
+        }
+        case.push(GK::AwaitBest);
+        case.raw("isready");
+        case.push(GK::AwaitReady);
+        case.raw("quit");
+        case
+    } else if fam <= 5 {
+        // self-play under the simulated clock, played to its natural end
+        let mut case = Case::new("C15", "selfplay-to-the-end", seed, Mode::Autoplay);
+        case.params.policy = rng.pick(&[Policy::Np, Policy::Rw(50), Policy::Rw(300)]).clone();
+        case.params.fair = *rng.pick(&[2u32, 8, 64]);
+        case.params.node_cost = 1_000_000;
+        case.autoplay_ms = rng.range(1, if thorough { 60 } else { 12 });
+        case.params.max_polls = if thorough { 400_000 } else { 60_000 };
+        case.params.max_steps = case.params.max_polls * 4;
+        case
+    } else {
+        // maximal-mobility and many-queens roots
+        let mut case = Case::new("C15", "direct-max-mobility", seed, Mode::Direct);
+        direct_params(&mut case, if thorough { 2_000_000 } else { 200_000 });
+        let nm = *rng.pick(&["218-moves", "nine-queens", "queens-both", "promo-capture", "perft4", "kiwipete"]);
+        let r = ROOTS.iter().find(|x| x.name == nm).unwrap();
+        let n = rng.below(6);
+        let pre = walk(&mut rng, r.fen, n);
+        case.items.push(ditem(r.fen, &pre, Some(rng.range(1, 3) as u8), None));
+        case.items.push(ditem(r.fen, &pre, None, Some(rng.log_uniform(100, 100_000))));
+        case
+    }
+}
+
 /// The case a seed expands to for a property's default workload mix.
-pub fn gen(prop: &str, seed: u64, tier_thorough: bool) -> Case {
-    let _ = tier_thorough;
+pub fn gen(prop: &str, seed: u64, thorough: bool) -> Case {
     match prop {
         "C14" => gen_session("C14", seed, 0, true),
         "C06" | "C18" => match seed % 10 {
@@ -353,6 +867,11 @@ pub fn gen(prop: &str, seed: u64, tier_thorough: bool) -> Case {
             5..=7 => gen_direct_history(prop, seed, true),
             _ => gen_direct_history(prop, seed, false),
         },
+        "C07" => gen_c07(seed, thorough),
+        "C08" => gen_c08(seed, thorough),
+        "C13" => gen_c13(seed, thorough),
+        "C19" => gen_c19(seed, thorough),
+        "C15" => gen_c15(seed, thorough),
         _ => gen_session(prop, seed, 0, true),
     }
 }
